@@ -9,6 +9,7 @@ ENGINES = [
  {"name":"query","path":"harness/src/query.rs","serves_properties":["C09","C10"],"kind_free_text":"explicit-state BFS over event histories on the real FindNodeQuery / PredicateQuery / QueryPool with explicit time"},
  {"name":"filter","path":"harness/src/filter.rs","serves_properties":["C18"],"kind_free_text":"explicit-state BFS of the real Limiter against an exact token bucket; full path enumeration; history-replay BFS of the real packet Filter with the global permit/ban list"},
  {"name":"ssim","path":"harness/src/ssim.rs","serves_properties":["C11","C12","C14","C17","C20"],"kind_free_text":"real Discv5/Service over a scripted handler (feature-gated early return in Handler::spawn); event histories enumerated exhaustively"},
+ {"name":"hsim","path":"harness/src/hsim.rs (+ hdrive.rs, attack.rs, tamper.rs, expiry.rs)","serves_properties":["C01","C02","C03","C04","C13","C15","C19"],"kind_free_text":"2-4 real Handlers on virtual sockets (feature-gated early return in Socket::new; real RecvHandler::handle_inbound), harness-owned application, network, clock and crafted attacker; history-replay BFS with a deviation budget, every history run to a leaf"},
  {"name":"table","path":"harness/src/table.rs","serves_properties":["C07","C08","C16"],"kind_free_text":"explicit-state BFS over operation histories on the real KBucketsTable (history replay, canonical fingerprints)"},
 ]
 
@@ -53,7 +54,27 @@ CHECKS = {
    "The single-stack address check of incoming sessions is decided by the handler (checked in the handler engine when built).","3/C12"),
  "C17": ("model_checking","explicit-state BFS over histories of PONG votes, failures and time passing on the real Service with a scripted handler; reference vote ledger","ssim",
    "All histories up to the stated depth over {PONG(voter, address) answering a real service ping, request failure, ping interval, vote expiry} for minimum 2 and 3, 4-5 voters of mixed connection direction, IPv4 and dual-stack: whenever the local record's UDP address changes, the new address has at least the minimum number of distinct unexpired voters (clear-majority margin in all-eligible worlds), seq increases, signature verifies, exactly one SocketUpdated event.",
-   "Which PONGs count as votes is implementation policy: the margin clause is checked in worlds where every voter is eligible; mixed worlds check the policy-independent minimum clause.","3/C17"),
+   "Which PONGs count as votes is implementation policy: the margin clause is checked in worlds where every voter is eligible; mixed worlds check the policy-independent minimum clause.","3/C17"), "C01": ("model_checking","explicit-state BFS over attacker-move histories (deviation budget K) on real handlers: victim, genuine peer and a crafted Dolev-Yao attacker using the crate's own primitives; harness-side proved(id,address) fact vs handler bookkeeping and reported events","hsim",
+   "All histories with at most K attacker moves (messages claiming X's or its own id from its own or X's address; 15-24 handshake variants per outstanding challenge: claimed id x attached record x signature; forged WHOAREYOUs for any in-flight request; replays of every handshake/WHOAREYOU from the original or the attacker's address; responder answers) interleaved with genuine traffic under the default policy, in four (thorough seven) worlds incl. X known with seq 1/5, V dialling X, V dialling M: a session for (id, address) or any Established/Unverifiable/Request/Response naming it appears only if that party proved the id (signature under the key hashing to it over V's outstanding challenge) or V itself dialled that key and the datagram really came from its holder.",
+   "Symbolic attacker (guesses nothing; crypto strength assumed). Initiator role: Established(Outgoing) is issued by protocol design when V sends its own handshake; table effects are observed at the handler boundary.","3/C01"),
+ "C02": ("fault_enumeration","exhaustive enumeration of mutation descriptors over every genuine datagram of three base exchanges on real handlers; authenticity oracle on every application delivery","hsim",
+   "For every datagram delivered in three base exchanges (fresh session, re-keyed session with old keys retained, session awaiting the peer's record) every bit flip / truncation / insertion / tail / unmasked-domain header edit / header-body splice with every other logged datagram / re-masking for and redirection to another node / foreign source is applied to the live bytes, delivered instead, and the run completed: nothing is ever handed to an application that its attributed sender did not submit.",
+   "Symbolic attacker without key material; AES-GCM/CTR strength assumed.","3/C02"),
+ "C03": ("model_checking","history-replay BFS with deviation budget on real handlers (honest faults) plus attacker worlds (forged WHOAREYOU, replays, late handshakes); key-material transition rule on handler snapshots","hsim",
+   "In every step of every explored history (8-13 honest workloads with <= K network/application/timing deviations; attacker worlds with <= K moves incl. replay of every handshake/WHOAREYOU at every later point from the original and another address, forged WHOAREYOUs for in-flight requests and for handshake packets): new session key material appears only in a step that delivered a handshake for an outstanding (id, address) challenge which is gone afterwards, or a WHOAREYOU echoing the nonce of a not-yet-answered in-flight request from its destination address; handshakes are emitted only in the latter case; at most one handshake per request.",
+   "Reads handler bookkeeping through the snapshot hook; random values are not owned (canonical observations, divergence guard).","3/C03"),
+ "C04": ("model_checking","history-replay BFS with deviation budget K on 2-3 real handlers, outcome ledger with full request ids, every history run to a leaf","hsim",
+   "All histories with <= K deviations (reorder, drop, duplicate, record-less who-are-you answer, early timer, peer restart; request submission timing free) over 8 (thorough 13) workloads of up to 3 concurrent requests in both directions, with/without record, multi-packet answers, retries 0..2: at most one terminal outcome always, exactly one at every leaf, transmissions per (request, key) <= 1+retries, Timeout only if some request to that peer was unanswered for a full timeout.",
+   "<= 3 requests, <= 3 nodes, K <= 2 quick / 3 thorough.","3/C04"),
+ "C13": ("model_checking","same search as C04 plus attacker worlds; exemption map compared with handler bookkeeping in every quiescent state, emptiness at every leaf","hsim",
+   "In every quiescent state of the C04 search and of the attacker worlds (malicious peer: WHOAREYOU for in-flight requests and for handshake packets, handshakes failing after the challenge was consumed, bad signatures, silence, partial answers) the shared exemption map equals the multiset of addresses of outstanding requests and challenges; no request stays outstanding once its answer was consumed; at every leaf the map is empty.",
+   "Exemption map read through the virtual-socket hook; bookkeeping through the snapshot hook.","3/C13"),
+ "C15": ("model_checking","explicit-state BFS on the real LruTimeCache vs a list reference, and history-replay BFS on 2-4 real handlers with idle periods around the session timeout and capacity 1/2","hsim",
+   "Component: all operation sequences to depth 6 (thorough 8) on the real cache (capacity 1..3, ttl 10 s, idle 4/7 s). Handler: every interleaving of request submissions in both directions with idle periods of 99/101 s around a 100 s session timeout, and every order of session establishment with capacity 1 and 2: no message is encrypted or accepted under a session idle for longer than the timeout, sessions <= capacity, the victim is the least recently used.",
+   "Idle periods are taken only while nothing is in flight.","3/C15"),
+ "C19": ("model_checking","C04 search re-run with the random part of every message nonce forced to a constant (hook); datagrams grouped by the session key that decrypts them","hsim",
+   "On every explored history (retransmissions, re-keying by either side with requests in flight, peer restart) with the 8 random nonce bytes forced constant: two datagrams of one node that decrypt under the same key carry different nonces or are byte-identical; id-nonces of WHOAREYOUs never repeat exactly.",
+   "u32 counter wrap out of reach; id-nonce uniqueness is probabilistic (only exact repeats are caught).","3/C19"),
 }
 
 NA_REASON = "check not built yet (work in progress; see DESIGN.md for the planned engine)"
